@@ -178,13 +178,17 @@ Definition show_cursor_of (k : acked) (s : cstore) : string :=
 Definition conc_result (p : pc cursor) : string :=
   match p with PDone true => "ok" | PDone false => "InvalidTopic" | _ => "-" end.
 
+(** Enough labels to let every call return from any reachable state: each pass over
+    [serial_sched] completes at least the call that holds the permit. *)
+Definition drain_sched (n : nat) : list nat := List.concat (repeat (serial_sched n) (S n)).
+
 (** The model's line: cursor after the initial acks; letters + cursor after every label; after
     the labels every call is run to its end (any order gives the same store:
     Proofs/AckConc.v [concurrent_acks_max]); results; final cursor. *)
 Definition model_line_conc (k : acked) (init hs : list header) (sched : list nat) : string :=
   let s0 := conc_init k init in
   let n := List.length hs in
-  let fin := conc_run k hs s0 (sched ++ serial_sched n) in
+  let fin := conc_run k hs s0 (sched ++ drain_sched n) in
   join " ; " (show_cursor_of k s0 ::
               map (fun s => conc_letters n s ++ " " ++ show_cursor_of k (m_store s)) (conc_trace k hs (m_init s0) sched))
   ++ " | " ++ join " " (map (fun i => conc_result (m_pc fin i)) (seq 0 n))
